@@ -1,4 +1,56 @@
-import Ramses.Model.Match
+/-
+  C09 — the send machinery never wedges: it returns to idle and keeps serving.
+  Model: Model/Qos.lean (macro-step abstraction, see C08); `Inv` is the model's counterpart of the
+  authors' own `is_sending` consistency predicate.
+-/
+import Ramses.Proofs.QosInv
 namespace Ramses.C09
-open Ramses
+open Ramses Ramses.Qos
+
+/-- **the internal consistency checks never trip**: after any finite episode the machine
+    satisfies the invariant that the authors' `is_sending` asserts (nothing in flight ⇔ idle or
+    inactive; in flight ⇒ a command with 1 ≤ tx_count ≤ tx_limit that is not also queued) -/
+theorem consistent_always (fails : List (Nat × Nat)) (evs : List (Nat × Ev)) (hf : FreshEvs (init fails) evs) :
+    Inv (run (init fails) evs) := run_inv _ evs (init_inv fails) hf
+
+/-- **back to idle**: with nothing in flight the machine is idle (or inactive if disconnected) -/
+theorem rests_idle (fails : List (Nat × Nat)) (evs : List (Nat × Ev)) (hf : FreshEvs (init fails) evs)
+    (h : (run (init fails) evs).cur = none) :
+    (run (init fails) evs).st = .idle ∨ (run (init fails) evs).st = .inactive :=
+  (consistent_always fails evs hf).idle_ok h
+
+/-- **a fresh command to a responsive device succeeds**: from any idle state with an empty queue,
+    a command whose write does not fail and whose echo arrives is answered with that echo -/
+theorem probe_succeeds (s : S) (c : QCmd) (h1 : s.st = .idle) (h2 : s.que = []) (h3 : s.dead = [])
+    (hw : writeFails s c.id = false) (hn : c.needReply = false) :
+    (c.id, Out.echo, s.now) ∈ (apply (apply s (.call c)) (.echo c.id)).outcomes := by
+  have hlen : ¬ (s.que.length ≥ maxBuffer) := by rw [h2]; decide
+  have hi : ¬ (s.st = .inactive) := by rw [h1]; decide
+  have e1 : apply s (.call c) =
+      startTimer (logWrite { s with st := .wantEcho, cur := some c, txCount := 1, txLimit := limOf c, timerAt := none, que := [], called := s.called ++ [c] } c.id) echoTimeout := by
+    show (if s.st = .inactive then answer { s with called := s.called ++ [c] } c.id .failed
+      else if s.que.length ≥ maxBuffer then answer { s with called := s.called ++ [c] } c.id .failed
+      else (if ({ s with que := s.que ++ [c], called := s.called ++ [c] } : S).st = .idle
+            then goIdle (fuelOf { s with que := s.que ++ [c], called := s.called ++ [c] }) { s with que := s.que ++ [c], called := s.called ++ [c] }
+            else { s with que := s.que ++ [c], called := s.called ++ [c] })) = _
+    rw [if_neg hi, if_neg hlen]
+    simp only [h1, if_true, h2, List.nil_append, fuelOf, List.length_cons, List.length_nil]
+    unfold goIdle
+    simp only [best, h3]
+    have hw' : ∀ (x : S), x.writes = s.writes → x.failWrites = s.failWrites → writeFails x c.id = false := by
+      intro x hx1 hx2
+      unfold writeFails countWrites at hw ⊢
+      rw [hx1, hx2]; exact hw
+    simp [hw', logWrite, startTimer]
+  rw [e1]
+  simp only [apply, startTimer, logWrite, hn]
+  simp [goIdle, answer, fuelOf, best]
+
+/-- non-vacuity + the once-fatal schedule: disconnect between enqueue and start, reconnect, probe -/
+example :
+    let s := run (init []) [(0, .call ⟨0, 0, 0, 3, false, true, 1000000⟩), (20000, .connLost), (30000, .call ⟨1, 0, 1, 3, false, true, 1030000⟩),
+                            (500000, .connMade), (600000, .call ⟨2, 0, 2, 3, false, true, 20600000⟩), (620000, .echo 2)]
+    s.st = .idle ∧ s.cur = none ∧ s.outcomes = [(0, .failed, 20000), (1, .failed, 30000), (2, .echo, 620000)] := by
+  decide +kernel
+
 end Ramses.C09
